@@ -25,6 +25,7 @@ type Peer struct {
 	Channels map[string]*Channel
 	ACL      *ACL
 	Now      int64 // seconds
+	NowNanos int32 // the fraction of the second the next proposals' timestamps carry (the library compares whole seconds)
 	txSeq    uint64
 	KeyRules string // "leveldb" (default) or "couchdb"
 	// part of the next proposals: the client's transient map (travels with the proposal) and what this
@@ -108,6 +109,7 @@ type TxStub struct {
 	creator []byte
 	sp      *pb.SignedProposal
 	ts      int64
+	tsNanos int32
 	writes  map[string]KVWrite
 	event   *pb.ChaincodeEvent
 	other   []string
@@ -137,12 +139,12 @@ func (p *Peer) newStub(ch *Channel, txID string, creator []byte, args [][]byte) 
 		// naming the chaincode the proposal is routed to
 		ext, _ := proto.Marshal(&pb.ChaincodeHeaderExtension{ChaincodeId: &pb.ChaincodeID{Name: ch.ccName()}})
 		chdr, _ := proto.Marshal(&common.ChannelHeader{Type: int32(common.HeaderType_ENDORSER_TRANSACTION), ChannelId: ch.channelID(), TxId: txID,
-			Timestamp: &timestamp.Timestamp{Seconds: p.Now}, Extension: ext})
+			Timestamp: &timestamp.Timestamp{Seconds: p.Now, Nanos: p.NowNanos}, Extension: ext})
 		shdr, _ := proto.Marshal(&common.SignatureHeader{Creator: creator, Nonce: []byte(txID)})
 		header, _ = proto.Marshal(&common.Header{ChannelHeader: chdr, SignatureHeader: shdr})
 	}
 	prop, _ := proto.Marshal(&pb.Proposal{Header: header, Payload: payload})
-	return &TxStub{ch: ch, txID: txID, args: args, creator: creator, ts: p.Now,
+	return &TxStub{ch: ch, txID: txID, args: args, creator: creator, ts: p.Now, tsNanos: p.NowNanos,
 		sp: &pb.SignedProposal{ProposalBytes: prop}, writes: map[string]KVWrite{},
 		transient: p.Transient, decorations: p.Decorations}
 }
@@ -478,7 +480,7 @@ func (s *TxStub) GetBinding() ([]byte, error)               { return nil, nil }
 func (s *TxStub) GetDecorations() map[string][]byte         { return s.decorations }
 func (s *TxStub) GetSignedProposal() (*pb.SignedProposal, error) { return s.sp, nil }
 func (s *TxStub) GetTxTimestamp() (*timestamp.Timestamp, error) {
-	return &timestamp.Timestamp{Seconds: s.ts}, nil
+	return &timestamp.Timestamp{Seconds: s.ts, Nanos: s.tsNanos}, nil
 }
 func (s *TxStub) SetEvent(name string, payload []byte) error {
 	if name == "" {
